@@ -380,6 +380,7 @@ impl World {
                                 violations: &mut self.violations,
                                 stats: &mut self.stats,
                                 tick: self.tick,
+                                quiet_mem_faults: self.cfg.hostile,
                             };
                             dev.on_published(q, &chain, &mut ctx);
                         }
@@ -753,6 +754,7 @@ impl World {
                 violations: &mut self.violations,
                 stats: &mut self.stats,
                 tick: self.tick,
+                quiet_mem_faults: self.cfg.hostile,
             };
             dev.complete(q, &chain, &mut ctx)
         };
@@ -841,6 +843,7 @@ impl World {
         };
         if !want
             && self.cfg.validate
+            && !self.cfg.scribble
             && self.tr.negotiated(F_EVENT_IDX)
             && self.dq[q as usize].consumed == Some(old)
         {
